@@ -363,6 +363,7 @@ func (e *Exec) execInstr(st *State, fr *Frame, in ssa.Instruction) ([]*State, bo
 		return e.execUnOp(st, fr, x)
 
 	case *ssa.Store:
+		e.foreignGlobalStore(st, fr, x)
 		addr := e.val(fr, x.Addr)
 		p := e.derefPlace(st, addr, x.Pos(), e.eng.srcText(x.Pos()))
 		v := e.val(fr, x.Val)
@@ -616,6 +617,21 @@ func (e *Exec) initPlace(st *State, p *Place) {
 		return
 	}
 	e.storePlace(st, p, zeroValue(p.Typ))
+	// a struct declared outside the repository is opaque by value, but its
+	// fields are addressed one by one through pointers: a new one has zero fields
+	if sst, ok := p.Typ.Underlying().(*types.Struct); ok && !transparentStruct(p.Typ) && p.Kind == PObj && sst.NumFields() <= 64 {
+		for i := 0; i < sst.NumFields(); i++ {
+			ft := sst.Field(i).Type()
+			if _, isArr := ft.Underlying().(*types.Array); isArr {
+				continue
+			}
+			if _, isSt := ft.Underlying().(*types.Struct); isSt {
+				continue
+			}
+			fp := fieldPlace(p, p.Typ, sst, i)
+			e.storePlace(st, fp, zeroValue(ft))
+		}
+	}
 }
 
 func (e *Exec) initElems(st *State, el types.Type, base Term) {
@@ -894,6 +910,11 @@ func (e *Exec) provenTracePreds(fr *Frame, li *loopInfo) map[string][]string {
 		if x.Op == "call" && len(x.Args) == 3 && x.Args[0].Op == "id" && x.Args[0].Name == "all" && stableSpecExpr(x.Args[2], false) {
 			n := patName(x.Args[1])
 			out[n] = append(out[n], x.Args[2].String())
+		}
+		// none(E) with a bare event name: "no E at all" is its own invariant
+		if x.Op == "call" && len(x.Args) == 2 && x.Args[0].Op == "id" && x.Args[0].Name == "none" && x.Args[1].Op == "id" {
+			n := patName(x.Args[1])
+			out[n] = append(out[n], "#none")
 		}
 	}
 	for _, cl := range e.loopClauses(fr, li) {
